@@ -183,13 +183,17 @@ CLAIMED = {
  "C02": dict(
    text="Coq theorems (C02.v): NO STUCK STATE — for every settled snapshot within the premises, an empty plan implies the pods are exactly the desired ones, "
         "steady, identity/storage in order, and at the update revision from the partition up; FIXED POINT — converged pods give an empty plan, and then every "
-        "reconcile (all API states, oracles) issues no pod or claim write. PARTIAL: termination of the fair suffix (a decreasing measure over rounds) and "
-        "quietness of status/revision writes at the fixed point are not proved; they are decided on the implementation on every generated history "
-        "(chaotic prefix of reconciles, kubelet events, partial cache refreshes, faults, edits that stop; fair suffix): converged, status = census, last two "
-        "reconciles write nothing. The environment model (Env.v: caches, kubelet, edits) is compared with the real world after every op inside coqc.",
-   note="PARTIAL as stated (named C02_converges_partial_example + comment in C02.v). Premises: valid defaulted spec, canonical names, no unclaimable pod "
-        "holding a desired name, not paused/deleting, no terminal-phase pod outside the desired set under the ordered policy.",
-   technique="Coq proof (fixed points and progress of the planner) + history-level differential correspondence of the environment model + convergence monitor",
+        "reconcile (all API states, oracles) issues no pod or claim write; TERMINATION (TerminationProofs.v) — a fair round (plan takes effect, terminating pods "
+        "finish, created pods become Ready) of any well-formed snapshot of any size strictly decreases the measure mu while the plan is non-empty and keeps "
+        "well-formedness, hence after at most mu(pods) rounds the pods are converged and stay so, whatever current revision each round resolves. "
+        "PARTIAL: that the full reconcile model's round (revision phase, adoption, executor) yields the pods of the abstract round is evaluated inside coqc on "
+        "worlds observed in histories and on synthetic settled worlds, not proved; quietness of status/revision writes at the fixed point is not proved. Both are "
+        "decided on the implementation on every generated history (chaotic prefix of reconciles, kubelet events, partial cache refreshes, faults, edits that stop; "
+        "fair suffix): converged, status = census, last two reconciles write nothing. The environment model (Env.v) is compared with the real world after every op inside coqc.",
+   note="PARTIAL as stated (comment (4) in C02.v). Premises: valid defaulted spec (RollingUpdate carries a partition), canonical names, no unclaimable pod "
+        "holding a desired name, not paused/deleting, no terminal-phase pod outside the desired set.",
+   technique="Coq proof (fixed points, progress and termination measure of the pod phase) + history-level differential correspondence of the environment model "
+             "+ in-Coq evaluation tying the abstract round to the full model + convergence monitor",
    ref="6 C02"),
 }
 
